@@ -62,7 +62,7 @@ CHECKS = {
  "C03": ("E4 schedule explorer", "exploration",
    "schedule-exploring property testing (generated scenario + generated scheduler decision stream on the shuttle runtime via the verif sync shim; history invariant; shrinking over schedule and scenario) + real-thread stress",
    "A harness producer and consumer share a 1-2 page stream through the public API while every lock/unlock/timed-wait/notify/drop is a scheduling point decided by generated bytes; the consumer must see exactly the committed sequence and, over every consumed stretch, exactly the producer's tags, and every window acquisition is checked for disjointness from the other side's live windows in ring coordinates; a real two-thread run moves 4e5 (thorough 2e7) samples through a 1-page stream.",
-   "sequential consistency at critical-section granularity; weak memory only sampled by the real-thread run on x86", "DESIGN.md §5 C03"),
+   "sequential consistency at critical-section granularity; weak memory only sampled by the real-thread run on x86; half of the executions use notification-faithful timed waits (a timeout fires only when every runnable task sleeps in a wait), where a wait that is satisfied but was never notified is a lost wake-up", "DESIGN.md §5 C03"),
  "C04": ("E4 schedule explorer", "exploration",
    "schedule-exploring property testing of the wait/eof verdicts (generated scenario + decision stream; verdict soundness and bounded-arrival oracle)",
    "Reader-waits, writer-waits and packet-stream scenarios with a peer that commits and leaves are executed under generated schedules in which wait timeouts fire after 0-3 yields; a 'never'/eof verdict must imply peer gone and insufficient data (checked right after, which is valid because a gone peer cannot add data), all committed data must be read back, and a call that starts after the facts are settled must deliver the verdict.",
@@ -99,7 +99,7 @@ CHECKS = {
  "C20": ("E3 reference models (modulators) + both runners", "exploration",
    "round-trip property testing through the whole receive chain (independent HDLC framer + AFSK / G3RUH-FSK modulators -> library receive chains on Graph and MTGraph -> delivered packets == transmitted payloads)",
    "Generated transmissions (1-8 frames of 10-300 bytes, random and stuffing-heavy, generated phase / symbol timing / amplitude, three resp. two sample rates) are modulated by independent Bell-202 AFSK and G3RUH 2-FSK modulators and fed to the receive chains assembled from library blocks with the examples' parameters, on both runners and two stream sizes, followed by trailing flags or by exact digital silence right after the closing flag and >= 1 idle flag; the delivered packets must equal the transmitted payloads exactly, once, in order, and agree between runners.",
-   "9600 chain uses the ZeroCrossing block; the last frame is followed by 40/300 trailing flags or by >= 1 idle flag and 16 000 / 64 000 samples of silence (no end-of-input flush in the chains); noiseless signals", "DESIGN.md §5 C20"),
+   "9600 chain uses the ZeroCrossing block; the last frame is followed by 40/300 trailing flags or by >= 1 idle flag and 16 000 / 64 000 samples of silence (no end-of-input flush in the chains); noiseless signals; one case in four ends in a PduWriter whose files (named by the microsecond of writing) are the delivered frames", "DESIGN.md §5 C20"),
 }
 
 NOT_YET = {}
